@@ -19,7 +19,7 @@ import (
 )
 
 func init() {
-	register(&Prop{ID: "C03", Module: "V.C03.Check", Gen: c03Gen, Quick: 3600, Thorough: 60000, Shard: 300})
+	register(&Prop{ID: "C03", Module: "V.C03.Check", Gen: c03Gen, Quick: 3000, Thorough: 60000, Shard: 220})
 }
 
 func c03Parse(text string) (m *d2ast.Map, nerr int, fail string) {
@@ -454,6 +454,57 @@ func c03SearchCase(text, class string) (Case, bool) {
 	return c, true
 }
 
+// c03ProgCase: an AST built the way d2oracle builds them (d2ast.RawString nodes without raw text): the
+// printer's escape functions decide the text.  Same property: re-parse without errors, second format identical.
+func c03ProgCase(key, val string, nested bool) Case {
+	c := Case{Class: "search/programmatic", Key: "p:" + key + "\x00" + val + fmt.Sprint(nested)}
+	func() {
+		defer func() {
+			if e := recover(); e != nil {
+				c.ImplFail = append(c.ImplFail, fmt.Sprintf("panic: %v", e))
+			}
+		}()
+		mk := &d2ast.Key{Key: &d2ast.KeyPath{Path: []*d2ast.StringBox{d2ast.RawStringBox(key, true)}}}
+		if nested {
+			inner := &d2ast.Key{Key: &d2ast.KeyPath{Path: []*d2ast.StringBox{d2ast.RawStringBox(val, true)}}, Primary: d2ast.MakeValueBox(d2ast.RawString(key, false)).ScalarBox()}
+			mk.Value = d2ast.MakeValueBox(&d2ast.Map{Range: d2ast.MakeRange(",1:0:0-1:9:9"), Nodes: []d2ast.MapNodeBox{{MapKey: inner}}})
+		} else {
+			mk.Value = d2ast.MakeValueBox(d2ast.RawString(val, false))
+		}
+		m := &d2ast.Map{Nodes: []d2ast.MapNodeBox{{MapKey: mk}}}
+		f1, fail := c03Format(m)
+		if fail != "" {
+			c.ImplFail = append(c.ImplFail, fail)
+		}
+		m1, nerr1, pfail := c03Parse(f1)
+		if pfail != "" {
+			c.ImplFail = append(c.ImplFail, pfail)
+		}
+		f2 := ""
+		if m1 != nil {
+			f2, _ = c03Format(m1)
+		}
+		w1, w2 := c03Window(f1, f2)
+		c.Coq = fmt.Sprintf("CSearch %d %s %s", nerr1, coqRunes(w1), coqRunes(w2))
+		st := "ok"
+		if nerr1 > 0 {
+			st = "reparse-error"
+		} else if f1 != f2 {
+			st = "not-idempotent"
+		}
+		c.Input = map[string]any{"text": fmt.Sprintf("RawString key %q value %q nested=%v", key, val, nested)}
+		c.Impl = map[string]any{"f1": f1, "f1_window": w1, "f2_window": w2, "reparse_errors": nerr1, "status": st}
+		c.Nontrivial = true
+		if m1 != nil {
+			c.KF = c03KF(f1, m1, f1, m1)
+		}
+	}()
+	if c.Coq == "" {
+		c.Coq = "CSearch 0 [] []"
+	}
+	return c
+}
+
 func c03FragCase(text, class string, must bool) Case {
 	x := c03RunImpl(text)
 	c := Case{Class: "frag/" + class, Key: "f:" + text, ImplFail: x.fails}
@@ -539,11 +590,19 @@ func c03Gen(r *Rng, tier string, n int) []Case {
 	}
 	corpus := c03Corpus()
 	nc := 0
+	var small []string
 	for _, t := range corpus {
-		if tier != "thorough" && len(t) > 2500 {
-			continue
+		if tier == "thorough" || len(t) <= 1200 {
+			small = append(small, t)
 		}
-		if addSearch(t, "repo") {
+	}
+	stride := 1
+	if tier != "thorough" && len(small) > 900 {
+		// the quick tier takes every stride-th script, at an offset that depends on the seed
+		stride = (len(small) + 899) / 900
+	}
+	for i := r.Intn(stride); i < len(small); i += stride {
+		if addSearch(small[i], "repo") {
 			nc++
 		}
 	}
@@ -560,6 +619,18 @@ func c03Gen(r *Rng, tier string, n int) []Case {
 			addFrag(c03Mutate(r, t), "mutated", false)
 		} else {
 			addFrag(t, "generated", true)
+		}
+	}
+	for i := 0; i < budget/12; i++ {
+		k, _ := c05RandStr(r)
+		v, _ := c05RandStr(r)
+		if k == "" {
+			k = "k"
+		}
+		pc := c03ProgCase(k, v, i%3 == 2)
+		if !seen[pc.Key] {
+			seen[pc.Key] = true
+			out = append(out, pc)
 		}
 	}
 	for i, tries := 0, 0; i < nGen && tries < nGen*6; tries++ {
